@@ -408,6 +408,10 @@ where
 		let mut content = String::new();
 		tx_f.read_to_string(&mut content)?;
 		// a partially written or corrupted file is an error, not a crash
+		// (the hex decoder slices the string at byte offsets: ASCII only)
+		if !content.is_ascii() {
+			return Err(Error::StoredTx(format!("{}: invalid hex", filename)));
+		}
 		let tx_bin = util::from_hex(&content)
 			.map_err(|e| Error::StoredTx(format!("{}: invalid hex, {}", filename, e)))?;
 		let tx = ser::deserialize(
